@@ -6,4 +6,6 @@ PROPERTIES = {
     "C17": ["contracts.c17"],
     "C12": ["contracts.c12"],
     "C13": ["contracts.c13"],
+    "C20": ["contracts.c20"],
+    "C14": ["contracts.c14", "contracts.c20", "contracts.c01"],
 }
